@@ -137,6 +137,8 @@ def r03_2b(ctx, A):
                 allr = [x for x in cfg.nodes if x.id in cfg.live and x.id in body_ids and isinstance(x.ast, ast.Raise)]
                 wide = [x for x in allr if not q.has_guard(fi, x, lambda t: t.startswith('isinstance(') and
                                                            'SystemExit' in t, True)]
+                if h.type is not None and ast.unparse(h.type) in ('SystemExit', '(SystemExit,)'):
+                    wide = []      # the handler's type is the isinstance test
                 ctx.ob('R03.2', 'workloop:only-the-termination-SystemExit-is-re-raised@except-%s' % (
                     ast.unparse(h.type) if h.type else 'bare'), not wide, fi, wide[0] if wide else h,
                     'every re-raise in the handler is under isinstance(exc, SystemExit)' if not wide else
